@@ -33,7 +33,7 @@ ASSUMPTIONS = [
 ]
 PROBES = ["invivo_notifications", "invivo_handlers_invoked", "invivo_multi_handler_notifications", "unprocessed_set_out", "lang_filtered", "any_lang_match", "blocked", "data_chained", "unprocessed_kept_data", "unknown_event",
           "flags_multi", "str_lang", "set_lang", "substring_lang", "register_list", "plugin_loaded", "prod_default_table",
-          "no_handler_matched", "listed_handlers", "debug_mode"]
+          "no_handler_matched", "listed_handlers", "debug_mode", "reentrant_notify", "registered_during_dispatch"]
 # the same check again, smaller, in interpreters started with assertions stripped (python -O / PYTHONOPTIMIZE=1)
 ENV_VARIANTS = [{"name": "python-O", "env": {"PYTHONOPTIMIZE": "1"}, "runs": {'quick': 3000, 'thorough': 30000}}]
 TIERS = {
@@ -104,6 +104,7 @@ def gen_knobs(rng, tier):
         "p_late_register": rng.choice([0.0, 0.3]),
         "p_unknown_event": rng.choice([0.0, 0.1]),
         "event_picks": [rng.randrange(64) for _ in range(3)],
+        "p_reentrant": rng.choice([0.0, 0.0, 0.3]),
         "debug": rng.random() < 0.2,          # production --debug: the manager prints what it dispatches
         "p_list": rng.choice([0.0, 0.0, 0.2]),
     }
@@ -181,8 +182,19 @@ def generate(rng, k):
             f = _gen_flags(rng, k)
             returns[str(h)] = f
             sets_out[str(h)] = bool(rng.random() < (0.75 if f != 0 else 0.25))
-        ops.append({"op": "notify", "event": e, "lang": rng.choice(LANGS + ["other"]),
-                    "returns": returns, "sets_out": sets_out})
+        nop = {"op": "notify", "event": e, "lang": rng.choice(LANGS + ["other"]), "returns": returns, "sets_out": sets_out}
+        others = sorted({x for x in events if x != e})
+        if regs[e] and others and rng.random() < k.get("p_reentrant", 0):
+            other = rng.choice(others)
+            if rng.random() < 0.6:
+                # re-entrancy: while it runs, this handler raises ANOTHER event on the same manager
+                nop["nested"] = {"h": rng.choice(regs[e]), "event": other, "lang": rng.choice(LANGS)}
+            elif hid < 24:
+                # ... or registers a new handler for ANOTHER event (must not disturb the dispatch in progress)
+                nop["late_reg"] = {"h": rng.choice(regs[e]), "new_h": hid, "event": other, "langs": _gen_langs(rng, k)}
+                regs[other].append(hid)
+                hid += 1
+        ops.append(nop)
     return ops
 
 
@@ -254,9 +266,27 @@ def execute(trace):
     script = {"returns": {}, "sets_out": {}, "n": 0}
     handlers = {}
 
+    nested_log = []      # (nested event, nested lang, [(hid, in_data)], return) performed from inside a handler
+    reent = {"nested": None, "late_reg": None, "em": None, "resolve": None}
+
     def make_handler(h):
         def handler(data):
             invoked.append((h, data.in_data))
+            nst, lrg = reent["nested"], reent["late_reg"]
+            if nst is not None and nst["h"] == h and nst.get("_ev") is not None and not nst.get("_done"):
+                nst["_done"] = True
+                outer = list(invoked)
+                del invoked[:]
+                nres = reent["em"].notify(_EventData(nst["lang"], nst["_ev"], "nested_in"))
+                nested_log.append((nst["_ev"], nst["lang"], list(invoked), nres))
+                invoked[:] = outer
+            if lrg is not None and lrg["h"] == h and lrg.get("_ev") is not None and not lrg.get("_done"):
+                lrg["_done"] = True
+                la = _langs_arg(lrg["langs"])
+                if la is None:
+                    reent["em"].register(lrg["_ev"], handlers[lrg["new_h"]])
+                else:
+                    reent["em"].register(lrg["_ev"], handlers[lrg["new_h"]], la)
             if script["sets_out"].get(str(h)):
                 data.out_data = f"out{script['n']}.{h}"
             return script["returns"].get(str(h), 0)
@@ -268,6 +298,10 @@ def execute(trace):
         if op["op"] == "register":
             all_h.add(op["h"])
         elif op["op"] == "list":
+            continue
+        elif op["op"] == "notify":
+            if op.get("late_reg"):
+                all_h.add(op["late_reg"]["new_h"])
             continue
         elif op["op"] == "register_list":
             all_h.update(i["h"] for i in op["items"])
@@ -388,6 +422,13 @@ def execute(trace):
                 script["returns"], script["sets_out"], script["n"] = op["returns"], op["sets_out"], n_notify
                 n_notify += 1
                 del invoked[:]
+                del nested_log[:]
+                reent["em"] = em
+                reent["nested"] = dict(op["nested"], _ev=resolve(op["nested"]["event"], usable)) if op.get("nested") else None
+                reent["late_reg"] = dict(op["late_reg"], _ev=resolve(op["late_reg"]["event"], usable)) if op.get("late_reg") else None
+                for spec_ in (reent["nested"], reent["late_reg"]):
+                    if spec_ is not None and spec_["_ev"] == ev:
+                        spec_["_ev"] = None          # only OTHER events: what a dispatch does to itself is not defined by the property
                 data = _EventData(lang, ev, f"in{n_notify}")
                 res = em.notify(data)
         except Exception as e:  # noqa
@@ -470,6 +511,19 @@ def execute(trace):
         elif not isinstance(res, int) or (res & union) != union or (res & ~(union | (1 if nonzero else 0))) != 0:
             detail["expected_union"] = union
             violation = {"step": step, "cls": "return_flags", "detail": detail}
+        if violation is None and reent["nested"] is not None and reent["nested"].get("_done"):
+            hit("reentrant_notify")
+            nev, nlang, nseq, nres = nested_log[0]
+            nregs = model.get(nev, []) if nev in kinds else []
+            nexp = [(h_, "nested_in") for h_, l_ in nregs if (nlang in l_) or (ANY in l_)]
+            # nested handlers are not scripted for this notification: they return 0 and keep the data
+            if nseq != nexp or nres != 0:
+                violation = {"step": step, "cls": "nested_dispatch", "detail": {"op": op, "nested_event": nev, "expected_calls": nexp,
+                                                                                "observed_calls": nseq, "return": nres}}
+        if violation is None and reent["late_reg"] is not None and reent["late_reg"].get("_done"):
+            hit("registered_during_dispatch")
+            lr = reent["late_reg"]
+            model.setdefault(lr["_ev"], []).append((lr["new_h"], _model_langs(lr["langs"])))
     return {"violation": violation, "probes": probes, "states": states, "trans": trans,
             "steps": len(ops), "log": digest_hex([log, violation])}
 
